@@ -22,6 +22,10 @@ const aggN = 3
 // documents, offset and limit on an inline array — is the input. (Symbolic integers make the solver decide
 // int64 -> float64 -> int64 round trips of sums, which it does not within the time limit even for 16-bit values.)
 func aggInts() [aggN]int64 {
+	if vConfInt("class") == 1 {
+		// one value just above 2^53 (symbolic low byte), the others zero
+		return [aggN]int64{int64(1)<<53 + int64(vU8("low")), 0, 0}
+	}
 	return [aggN]int64{1, -3, 9}
 }
 
